@@ -11,6 +11,17 @@ Decided structurally from the serde-generated / hand-written Serialize code:
                        the rest in order to Or{provides <- .0, requires <- .1}
   R5 single writer     phase / layer TOML goes through write_toml_file = toml::to_string then fs::write, both
                        ?-propagated; exec.d output is written to fd 3
+  R1 (shapes)          single-field wrappers (ExecDProgramOutput, its key, ProcessType) are written as their content, of
+                       the right TOML kind (string-keyed map / string); serialize_with functions write the text of
+                       their field unmodified
+  R2 (readback)        every key a read-back type writes is read into the same field
+  R4 (each)            the loop of build() appends an Or on every iteration and runs to exhaustion
+  R5 (payload)         fd 3 receives exactly one complete, checked write of toml::to_string(argument.into())
+  R6 builders          mutation summaries of the public builders / constructors (C07_helpers.r6): singular adders push
+                       exactly their argument at the back, plural adders every element in order, setters store their
+                       argument on every path, build() hands out every accumulated field untouched, new() starts
+                       empty, data constructors (Provide, Require, ExecDProgramOutput, package descriptor references)
+                       carry their argument; unmodelled builder methods are UNPROVEN
 Not decided: that toml::to_string emits valid TOML 1.0 for every string payload and that an independent
 parser recovers it (property of the toml crate).
 """
@@ -57,6 +68,7 @@ def run(ctx, rep):
     rep.rule('R3', 'WorkingDirectory: App => ".", Directory(p) => p')
     rep.rule('R4', 'BuildPlanBuilder or-group queue discipline')
     rep.rule('R5', 'single TOML writer with propagated errors; exec.d output on fd 3')
+    rep.rule('R6', 'public builders / constructors carry exactly what they were given')
     rep.not_decided = ['validity of the emitted TOML for every string payload and recovery by an independent parser (toml crate)']
     n = 0
     for t, want in SPEC_KEYS.items():
@@ -102,6 +114,8 @@ def run(ctx, rep):
         where = '%s:%s' % (a['file'], a['line']) if a else '-'
         got = se['variants'] if se else None
         rep.check(got == want, 'R1', 'enum/' + t, where, 'variant names %s' % want, '%s is written as %s, spec names are %s' % (t, got, want))
+    H.r1_shapes(prog, sl, rep)
+    H.r2_readback(prog, sl, rep, list(SPEC_KEYS))
     # is_app is true exactly for App
     ia = prog.fn('libcnb_data::launch::WorkingDirectory::is_app')
     rep.analysed(ia)
@@ -151,6 +165,8 @@ def run(ctx, rep):
     # the shape of the appended group record and the iterator algebra, so that neither helper extraction nor the
     # container / record type of the private accumulator matters
     H.r4(prog, sl, rep)
+    # ---- R6 ------------------------------------------------------------------------------------------
+    H.r6(prog, sl, rep)
     # ---- R5 ------------------------------------------------------------------------------------------
     w = prog.fn('libcnb_common::toml_file::write_toml_file')
     rep.analysed(w)
@@ -183,3 +199,4 @@ def run(ctx, rep):
     fd_must, fd_may = H.fd_effects(prog, sl, ex)
     rep.check(fd_must == [('const', 3)] and set(fd_may) == {('const', 3)}, 'R5', 'exec_d/fd3', '%s:%d' % (ex.file, ex.line), 'exec.d output goes to fd 3',
               'exec.d output fd: always %s, possibly %s' % (fd_must, fd_may))
+    H.execd_payload(prog, sl, rep, ex)
